@@ -119,6 +119,10 @@ class Gen(object):
         self.steps = steps
         self.log = Log(rng, self.cfg["buf"], self.cfg["max"]) if faithful else None
         self.tag = 0
+        self.api_scale = 1.0      # how often stop/shutdown/start-while-running are called
+        self.err_scale = 1.0      # how often requests fail
+        self.commit_scale = 1.0   # how often the application commits
+        self.prefix = []          # events to apply first (search around a known scenario)
 
     def next_tag(self):
         self.tag += 1
@@ -128,7 +132,7 @@ class Gen(object):
     def reply_for(self, r):
         rng = self.rng
         if r.kind == "fetch":
-            if rng.random() < (0.15 if self.faithful else 0.25):
+            if rng.random() < (0.15 if self.faithful else 0.25) * self.err_scale:
                 return "fetchDone %d err %s:%d" % (r.k, rng.choice(ERR_KINDS_REQ), self.next_tag())
             off, mb = r.args["offset"], r.args["max_bytes"]
             if self.faithful:
@@ -150,17 +154,17 @@ class Gen(object):
                 s += " foreign"
             return s
         if r.kind == "offsets":
-            if rng.random() < 0.25:
+            if rng.random() < 0.25 * self.err_scale:
                 return "offsetDone %d err %s:%d" % (r.k, rng.choice(ERR_KINDS_REQ), self.next_tag())
             if self.faithful:
                 return "offsetDone %d ok %d" % (r.k, self.log.earliest() if r.args["time"] == -2 else self.log.end)
             return "offsetDone %d ok %d" % (r.k, rng.choice([0, 3, 10, 25]))
         if r.kind == "offsetFetch":
-            if rng.random() < 0.25:
+            if rng.random() < 0.25 * self.err_scale:
                 return "offsetFetchDone %d err %s:%d" % (r.k, rng.choice(ERR_KINDS_REQ), self.next_tag())
             return "offsetFetchDone %d ok %d" % (r.k, rng.choice([-1, -1, 0, 2, 7, 12]))
         if r.kind == "commit":
-            if rng.random() < 0.35:
+            if rng.random() < min(0.8, 0.35 * max(self.err_scale, self.commit_scale / 2)):
                 return "commitDone %d err %s:%d" % (r.k, rng.choice(ERR_KINDS_COMMIT), self.next_tag())
             return "commitDone %d ok" % r.k
         raise AssertionError(r.kind)
@@ -200,10 +204,10 @@ class Gen(object):
             cands.append((0.3, "shutdown"))
             cands.append((0.3, "commit"))
         else:
-            cands.append((0.9, "stop"))
-            cands.append((0.8, "shutdown"))
-            cands.append((1.2 if self.cfg["group"] else 0.2, "commit"))
-            cands.append((0.2, "start 4"))
+            cands.append((0.9 * self.api_scale, "stop"))
+            cands.append((0.8 * self.api_scale, "shutdown"))
+            cands.append(((1.2 if self.cfg["group"] else 0.2) * self.commit_scale, "commit"))
+            cands.append((0.2 * self.api_scale, "start 4"))
         cands.append((0.3, "advance %s" % rng.choice(["1/16", "1/4", "1", "3"])))
         if rng.random() < 0.05:
             cands.append((0.5, "env %s %s" % (rng.choice(["kafka:97", "-"]), rng.choice(["kafka:98", "cancelled:99"]))))
@@ -226,8 +230,8 @@ class Gen(object):
         impl = []
         run.begin()
         try:
-            for _ in range(self.steps):
-                ev = self.choose(run)
+            for i in range(self.steps):
+                ev = self.prefix[i] if i < len(self.prefix) else self.choose(run)
                 sc["events"].append(ev)
                 impl.append(run.step(ev))
                 if run.crashed:
